@@ -18,6 +18,7 @@
 //! corpus(repo_root) -> Vec<CorpusEntry>; CorpusEntry::load() -> (Resolve, WorldId)
 //! panic_signature(backend, msg, location) -> String; panic_source_line(backend, location)
 //! directed_worlds() -> &[Directed]                // fixed WIT snippets reaching each known generator panic
+//! hash_order_worlds() -> Vec<(name, wit)>          // worlds stressing one generator collection each with >8 entries (C15)
 //! world_shape(&resolve, world, &tags) -> String
 //! validate_variants() -> Result<(), String>        // every flag list parses
 //! repo_root() -> PathBuf                           // $VERIF_REPO or /repo
@@ -979,6 +980,169 @@ const DIRECTED: &[Directed] = &[
 
 pub fn directed_worlds() -> &'static [Directed] {
     DIRECTED
+}
+
+// ---------------------------------------------------------------------------
+// hash-order-sensitive worlds (C15)
+
+/// Worlds built so that each stresses one generator-side collection with many
+/// (> 8) entries: if that collection is a `HashMap`/`HashSet` iterated into the
+/// output, independent processes disagree with near certainty.
+pub fn hash_order_worlds() -> Vec<(&'static str, String)> {
+    let mut v = vec![];
+    // 1. many borrows of imported resources in export signatures (C autodrop list, handle tables)
+    {
+        let mut w = String::from("package ho:borrows;\n\ninterface res {\n  resource r;\n  resource s;\n  resource t;\n  resource u;\n}\n\ninterface api {\n  use res.{r, s, t, u};\n");
+        w.push_str("  f: func(a: borrow<r>, b: borrow<s>, c: borrow<r>, d: borrow<s>, e: borrow<t>, g: borrow<u>);\n");
+        w.push_str("  g: func(a: borrow<u>, b: borrow<t>, c: borrow<s>, d: borrow<r>, e: borrow<u>, h: borrow<t>, i: borrow<s>, j: borrow<r>) -> u32;\n");
+        w.push_str("  h: func(a: borrow<r>, b: r, c: borrow<s>, d: s, e: borrow<t>) -> tuple<r, s>;\n");
+        w.push_str("  record holder { a: borrow<r>, b: borrow<s>, c: borrow<t>, d: borrow<u> }\n  k: func(x: holder, y: borrow<r>, z: borrow<u>);\n");
+        w.push_str("}\n\nworld w {\n  import res;\n  export api;\n}\n");
+        v.push(("borrows", w));
+    }
+    // 2. structurally equal named types defined in many interfaces, used differently
+    {
+        let mut w = String::from("package ho:equal;\n\n");
+        let mut names = vec![];
+        for i in 0..12 {
+            let n = format!("i{i}");
+            w.push_str(&format!("interface {n} {{\n  type bytes = list<u8>;\n  type pair = tuple<u32, string>;\n  type maybe = option<list<string>>;\n  record pt {{ x: u32, y: list<u8> }}\n  variant shape {{ none, some(list<u8>), both(tuple<u32, string>) }}\n"));
+            match i % 4 {
+                0 => w.push_str("  get: func() -> bytes;\n  getp: func() -> pair;\n  getm: func() -> maybe;\n  getr: func() -> pt;\n  gets: func() -> shape;\n"),
+                1 => w.push_str("  put: func(x: bytes);\n  putp: func(x: pair);\n  putm: func(x: maybe);\n  putr: func(x: pt);\n  puts: func(x: shape);\n"),
+                2 => w.push_str("  both: func(x: bytes, p: pair, m: maybe, r: pt, s: shape) -> tuple<bytes, pair, maybe, pt, shape>;\n"),
+                _ => w.push_str("  fail: func() -> result<u8, bytes>;\n  failp: func() -> result<u8, pair>;\n  failr: func(x: list<pt>) -> result<list<shape>, pt>;\n"),
+            }
+            w.push_str("}\n");
+            names.push(n);
+        }
+        w.push_str("\nworld w {\n");
+        for (k, n) in names.iter().enumerate() {
+            match k % 3 {
+                0 => w.push_str(&format!("  import {n};\n")),
+                1 => w.push_str(&format!("  export {n};\n")),
+                _ => w.push_str(&format!("  import {n};\n  export {n};\n")),
+            }
+        }
+        w.push_str("}\n");
+        v.push(("equal-types", w));
+    }
+    // 3. many resources with many methods, imported and exported
+    {
+        let mut w = String::from("package ho:resources;\n\n");
+        for iface in ["a", "b"] {
+            w.push_str(&format!("interface {iface} {{\n"));
+            for i in 0..9 {
+                w.push_str(&format!(
+                    "  resource res{i} {{\n    constructor(x: u32, y: string);\n    get: func() -> u32;\n    set: func(v: u32, s: list<u8>);\n    name: func() -> string;\n    make: static func(n: u8) -> res{i};\n    merge: static func(l: res{i}, r: borrow<res{i}>) -> option<res{i}>;\n  }}\n"
+                ));
+            }
+            w.push_str("  all: func(a: res0, b: borrow<res1>, c: res2, d: borrow<res3>, e: res4) -> tuple<res5, res6, res7, res8>;\n}\n");
+        }
+        w.push_str("\nworld w {\n  import a;\n  export a;\n  import b;\n  export b;\n}\n");
+        v.push(("many-resources", w));
+    }
+    // 4. many future/stream payload types across functions
+    {
+        const P: &[&str] = &["u8", "u16", "u32", "u64", "s8", "s16", "s32", "s64", "f32", "f64", "bool", "char", "string", "list<u8>", "option<u32>", "tuple<u8, string>", "result<u8, string>", "rec", "en", "list<rec>"];
+        let mut w = String::from("package ho:payloads;\n\ninterface i {\n  record rec { a: u32, b: string }\n  enum en { x, y, z }\n");
+        for (k, p) in P.iter().enumerate() {
+            w.push_str(&format!("  fut{k}: func(a: future<{p}>) -> future<{p}>;\n"));
+            if *p != "char" {
+                w.push_str(&format!("  str{k}: func(a: stream<{p}>) -> stream<{p}>;\n"));
+            }
+            if k % 3 == 0 {
+                w.push_str(&format!("  asy{k}: async func(a: {p}) -> {p};\n"));
+            }
+        }
+        w.push_str("}\n\nworld w {\n  import i;\n  export i;\n}\n");
+        v.push(("many-payloads", w));
+    }
+    // 5. many world-level functions and types
+    {
+        let mut w = String::from("package ho:worlditems;\n\ninterface base {\n  record b0 { x: u32 }\n  record b1 { x: string }\n  enum b2 { p, q }\n  flags b3 { m, n, o }\n  variant b4 { i(u32), s(string) }\n}\n\nworld w {\n  use base.{b0, b1, b2, b3, b4};\n");
+        for i in 0..10 {
+            match i % 5 {
+                0 => w.push_str(&format!("  record wr{i} {{ a: u32, b: b0, c: list<b1> }}\n")),
+                1 => w.push_str(&format!("  variant wv{i} {{ one(b2), two(b3), three }}\n")),
+                2 => w.push_str(&format!("  enum we{i} {{ k0, k1, k2, k3 }}\n")),
+                3 => w.push_str(&format!("  flags wf{i} {{ f0, f1, f2, f3, f4, f5, f6, f7, f8 }}\n")),
+                _ => w.push_str(&format!("  type wt{i} = tuple<b4, option<b0>, list<u8>>;\n")),
+            }
+        }
+        for i in 0..12 {
+            w.push_str(&format!("  import imp{i}: func(a: b{}, n: u{}) -> list<b{}>;\n", i % 5, [8, 16, 32, 64][i % 4], (i + 1) % 5));
+            w.push_str(&format!("  export exp{i}: func(a: b{}, s: string) -> option<b{}>;\n", (i + 2) % 5, (i + 3) % 5));
+        }
+        w.push_str("}\n");
+        v.push(("many-world-items", w));
+    }
+    // 6. many `use`d types across many interfaces
+    {
+        let mut w = String::from("package ho:uses;\n\ninterface base {\n");
+        for i in 0..14 {
+            match i % 4 {
+                0 => w.push_str(&format!("  record t{i} {{ a: u32, b: string }}\n")),
+                1 => w.push_str(&format!("  variant t{i} {{ a(u32), b(string), c }}\n")),
+                2 => w.push_str(&format!("  enum t{i} {{ a, b, c }}\n")),
+                _ => w.push_str(&format!("  resource t{i} {{ constructor(); m: func() -> u32; }}\n")),
+            }
+        }
+        w.push_str("}\n");
+        for k in 0..8 {
+            let picks: Vec<String> = (0..14).filter(|i| (i + k) % 2 == 0 || i % 7 == k % 7).map(|i| format!("t{i}")).collect();
+            w.push_str(&format!("interface user{k} {{\n  use base.{{{}}};\n", picks.join(", ")));
+            for (j, t) in picks.iter().enumerate().take(5) {
+                w.push_str(&format!("  f{j}: func(a: {t}) -> list<{}>;\n", picks[(j + 1) % picks.len()]));
+            }
+            w.push_str("}\n");
+        }
+        w.push_str("\nworld w {\n");
+        for k in 0..8 {
+            w.push_str(&format!("  {} user{k};\n", if k % 2 == 0 { "import" } else { "export" }));
+        }
+        w.push_str("}\n");
+        v.push(("many-uses", w));
+    }
+    // 7. many packages, namespaces and versions
+    {
+        let ids = [
+            ("aa", "lib", "@1.0.0"), ("aa", "lib", "@2.0.0"), ("bb", "lib", "@1.0.0"), ("bb", "my-lib", ""), ("cc", "io", "@0.2.0"), ("cc", "io", "@0.2.1"),
+            ("dd", "http-types", "@1.2.3"), ("ee", "core-utils", ""), ("ff", "x", "@3.0.0-rc.1"), ("gg", "lib", "@1.0.0"),
+        ];
+        let mut w = String::from("package ho:root@1.0.0;\n\n");
+        for (k, (ns, name, ver)) in ids.iter().enumerate() {
+            w.push_str(&format!("package {ns}:{name}{ver} {{\n  interface types {{\n    record item{k} {{ a: u32, b: string }}\n    enum kind{k} {{ x, y }}\n    get: func(k: kind{k}) -> item{k};\n  }}\n  interface api {{\n    use types.{{item{k}}};\n    run: func(a: item{k}) -> list<item{k}>;\n  }}\n}}\n\n"));
+        }
+        w.push_str("world w {\n");
+        for (k, (ns, name, ver)) in ids.iter().enumerate() {
+            w.push_str(&format!("  import {ns}:{name}/types{ver};\n"));
+            w.push_str(&format!("  {} {ns}:{name}/api{ver};\n", if k % 2 == 0 { "import" } else { "export" }));
+        }
+        w.push_str("}\n");
+        v.push(("many-packages", w));
+    }
+    // 8. many interfaces with mixed shapes, imported and exported
+    {
+        let mut w = String::from("package ho:ifaces;\n\n");
+        for i in 0..16 {
+            w.push_str(&format!(
+                "interface if{i} {{\n  record r {{ a: u{}, b: list<string>, c: option<f64> }}\n  variant v {{ a(r), b(map<string, u32>), c }}\n  flags fl {{ a, b, c, d }}\n  one: func(x: r, y: v, z: fl) -> result<v, string>;\n  two: func(m: map<u32, r>) -> tuple<fl, list<v>>;\n}}\n",
+                [8, 16, 32, 64][i % 4]
+            ));
+        }
+        w.push_str("\nworld w {\n");
+        for i in 0..16 {
+            match i % 3 {
+                0 => w.push_str(&format!("  import if{i};\n")),
+                1 => w.push_str(&format!("  export if{i};\n")),
+                _ => w.push_str(&format!("  import if{i};\n  export if{i};\n")),
+            }
+        }
+        w.push_str("}\n");
+        v.push(("many-interfaces", w));
+    }
+    v
 }
 
 // ---------------------------------------------------------------------------
